@@ -92,6 +92,9 @@ def run(eng, rep) -> None:
     rep.rule("R18.4", "the frame's 4-character bus tag is compared after removing its zero padding")
     rep.rule("R18.6", "a lookup key made of several variable texts keeps them apart (separator or fixed width): no two (id, bus) pairs share a key")
     rep.rule("R18.5", "static tables and run-time lookups: same population (CAN bindings) and keys (id, bus, name)")
+    rep.rule("R18.7", "a generated table that a binary search walks is emitted in the order the search compares by (Jinja sort is case-insensitive by default)")
+    from .lints import jinja_sort_vs_bisect
+    jinja_sort_vs_bisect(eng, rep, "R18.7", [HD + f_ for f_ in FILES])
     rep.assume("bus names have 1-4 characters (the property's quantifier): a copy of a bus name into the 4-character tag is taken as bounded; payload bytes and values are C03/C13's; frame ids fit std::uint16_t")
     hdir = eng.path(*HD.rstrip("/").split("/"))
     srcs = {}
